@@ -223,14 +223,55 @@ theorem interrupted_never_achieved (dl : Option Int) (it : Iter) (s : Slept)
   | none => simp [processClosed] at hs
   | some d =>
     unfold processClosed at hs ⊢
-    simp only at hs ⊢
-    split at hs
-    · rename_i hc
-      simp only [Option.some.injEq] at hs
-      simp only [hc, if_true, hs, hw]
-      simp only [Bool.and_eq_true] at hc
-      simp [hc.1.1.1]
-    · cases hs
+    cases hr : it.required <;> cases hg : it.gone <;> cases hm : it.patchMid <;> cases hi : it.patchInit <;>
+      by_cases hd : d = 0 <;> by_cases hp : d ≤ it.now + (it.dur : Int) <;> simp [hr, hg, hm, hi, hd, hp] at hs ⊢
+    all_goals (rw [hs]; simp [hw])
+
+/-- **Released at the deadline** (fix 5dff3c1). Once the waiting time is over — the barrier is reached at or
+    after `consistency_time` — and no patch was pending at the entry, the changing stage is entered at
+    once: no sleep, whatever has been accumulated in the patch meanwhile (`patchMid`), whatever the
+    pressure. (`d ≠ 0`: a `consistency_time` of exactly 0.0 is falsy in the code and never releases.) -/
+theorem released_after_deadline (d : Int) (it : Iter)
+    (hreq : it.required = true) (hinit : it.patchInit = true) (hd : d ≠ 0) (hpast : d ≤ it.now + it.dur) :
+    (process (some d) it).slept = none ∧ (process (some d) it).held = false ∧
+      (process (some d) it).entered = some (it.now + it.dur) := by
+  rw [process_closed]
+  unfold processClosed
+  cases hg : it.gone <;> cases hm : it.patchMid <;> simp [hreq, hinit, hd, hpast, hg, hm]
+
+/-- … lifted to runs: whatever the worker still expects after any (well-formed or not) history, an
+    iteration that reaches the barrier at or after the deadline it is given, with no pending patch, is not
+    held back. -/
+theorem released_after_deadline_run (T : Int) (pre : List Step) (i : Iter) (d : Int)
+    (hgiven : (outcomeAt T (exec T Cfg.init pre) i).given = some d)
+    (hreq : i.required = true) (hinit : i.patchInit = true) (hd : d ≠ 0) (hpast : d ≤ i.now + i.dur) :
+    (outcomeAt T (exec T Cfg.init pre) i).held = false ∧
+      (outcomeAt T (exec T Cfg.init pre) i).entered = some (i.now + i.dur) := by
+  have hdl : (arrive (exec T Cfg.init pre).s i.ver).deadline = some d := by
+    have := process_given (arrive (exec T Cfg.init pre).s i.ver).deadline i
+    show (arrive (exec T Cfg.init pre).s i.ver).deadline = some d
+    rw [← this]; exact hgiven
+  have ho : outcomeAt T (exec T Cfg.init pre) i = process (some d) i := by
+    show process (arrive (exec T Cfg.init pre).s i.ver).deadline i = _
+    rw [hdl]
+  rw [ho]
+  exact ⟨(released_after_deadline d i hreq hinit hd hpast).2.1, (released_after_deadline d i hreq hinit hd hpast).2.2⟩
+
+/-- The barrier's verdict as it was BEFORE fix 5dff3c1: the deadline was noticed only as the outcome of a
+    sleep, and the sleep was taken only with an empty patch. -/
+def achievedPre5dff3c1 (d : Int) (it : Iter) : Bool :=
+  (if it.required && !it.gone && it.patchMid && decide (d ≠ 0)
+   then (sleepUntil d (it.now + it.dur) it.pressure it.wake it.lag).timedOut else it.gone) && it.patchInit
+
+/-- **Regression witness.** An iteration that reaches the barrier at 500, long after its deadline 423, with a
+    non-empty patch (an `on.event` handler's result): before the fix it was held back — and so was every
+    later one, as long as the awaited version stayed away; now its handlers run at 500. -/
+theorem deadline_with_patch_regression_witness :
+    ∃ (it : Iter), it.patchMid = false ∧ it.now = 500 ∧
+      achievedPre5dff3c1 423 it = false ∧ (process (some 423) it).handlers = some 500 :=
+  ⟨{ ver := some ⟨107, false⟩, now := 500, dur := 0, pressure := false, wake := none, lag := 0, gone := false,
+     required := true, patchInit := true, patchMid := false, patched := some ⟨107, false⟩, tp := 502, tret := 503 },
+   rfl, rfl, by decide, by decide⟩
 
 /-- **Disabled.** With `consistency_timeout = 0` the worker never expects anything, the processor is
     always called with `consistency_time = None`, never sleeps, and holds change handlers back only
@@ -347,22 +388,22 @@ def feedbackPre460c956 (T : Int) (s : WState) (it : Iter) : WState :=
     just processed) made the worker expect 105 until 103 + 320; a genuine foreign change (106) arriving
     at 110 with a non-empty patch at the barrier (e.g. an `on.event` handler's constant result, built in
     every cycle) is held back and — as no sleep is taken with a non-empty patch — so is every later one,
-    even after the deadline (`now = 500`): the state-dependent handlers starve. With the repaired feedback
+    until the deadline (`now = 400`; before fix 5dff3c1 even beyond it): the state-dependent handlers starve. With the repaired feedback
     the same iterations run their handlers at once. -/
 theorem noop_stall_regression_witness :
     ∃ (k i late : Iter) (v : Ver),
-      k.ver = some v ∧ k.patched = some v ∧ i.patchMid = false ∧ late.patchMid = false ∧ late.now = 500 ∧
+      k.ver = some v ∧ k.patched = some v ∧ i.patchMid = false ∧ late.patchMid = false ∧ late.now = 400 ∧
       feedbackPre460c956 320 (arrive WState.init k.ver) k = { expected := some v, deadline := some 423 } ∧
       (process (some 423) i).held = true ∧ (process (some 423) late).held = true ∧   -- before the fix
       (exec 320 Cfg.init [.event k]).s = WState.init ∧                              -- after the fix
       (outcomeAt 320 (exec 320 Cfg.init [.event k]) i).handlers = some 110 ∧
-      (outcomeAt 320 (exec 320 Cfg.init [.event k, .event i]) late).handlers = some 500 :=
+      (outcomeAt 320 (exec 320 Cfg.init [.event k, .event i]) late).handlers = some 400 :=
   ⟨{ ver := some ⟨105, false⟩, now := 100, dur := 0, pressure := false, wake := none, lag := 0, gone := false,
      required := true, patchInit := true, patchMid := true, patched := some ⟨105, false⟩, tp := 102, tret := 103 },
    { ver := some ⟨106, false⟩, now := 110, dur := 0, pressure := false, wake := none, lag := 0, gone := false,
      required := true, patchInit := true, patchMid := false, patched := some ⟨106, false⟩, tp := 112, tret := 113 },
-   { ver := some ⟨107, false⟩, now := 500, dur := 0, pressure := false, wake := none, lag := 0, gone := false,
-     required := true, patchInit := true, patchMid := false, patched := some ⟨107, false⟩, tp := 502, tret := 503 },
+   { ver := some ⟨107, false⟩, now := 400, dur := 0, pressure := false, wake := none, lag := 0, gone := false,
+     required := true, patchInit := true, patchMid := false, patched := some ⟨107, false⟩, tp := 402, tret := 403 },
    ⟨105, false⟩, rfl, rfl, rfl, rfl, rfl, by decide, by decide, by decide, by decide, by decide, by decide⟩
 
 /-! ### Non-vacuity: concrete iterations (T = 5 s = 320 ticks, idle 320) -/
